@@ -50,6 +50,14 @@ func excluded(c Case, s Sub) string {
 			}
 		}
 	}
+	if vh.Excluded("C19-dotdot-after-symlink") && strings.Contains("/"+s.Word+"/", "/../") {
+		// ".." after a symlinked directory is resolved lexically
+		for _, e := range c.Tree {
+			if e.Kind == "link" {
+				return "C19-dotdot-after-symlink"
+			}
+		}
+	}
 	if vh.Excluded("C19-leading-dot") && !has(s, "dotglob") && !has(s, "noglob") {
 		for _, e := range c.Tree {
 			for _, comp := range strings.Split(e.Path, "/") {
